@@ -45,19 +45,23 @@ CHECKS = {
         design_ref="DESIGN.md sections 5 (C13) and 10.2",
         technique="Coq proof (references / rename / prepareRename = the occurrences of one binding, for every valid program, via the parser round trip and the typing theorems; robustness for all documents) over a Gallina model of the handlers + correspondence through the binary + binding/round-trip oracle"),
     "C14": dict(
-        category="other",
-        text="Machine-checked (Props/C14.v, 13 theorems) over the models of hover.rs and signature_help.rs. For EVERY valid "
-             "program - every abstract program of the grammar that is well-typed, every text that lexes to its tokens (every "
-             "layout), every identifier occurrence and every cursor column inside it - hover returns the signature text of the "
-             "entry the occurrence is bound to under SPL scoping (kind, name, ref marker, resolved type) followed by its doc "
-             "comments, over exactly the identifier's range (C14_hover_valid, C14_hover_valid_text; composes the C04 round trip, "
-             "the C03 no-false-positive theorem and the lexical conformance of C06). For ALL documents: shape of every hover and "
-             "signature-help answer (one entry per parameter, activeParameter = commas between `(` and the cursor), no identifier "
-             "=> no hover, totality. Stated, not proved: the signature-help half over valid programs, and the wording `document "
-             "without diagnostics` (needs completeness of the front end). Decided per input: model = server at every "
+        category="proof",
+        text="Machine-checked (Props/C14.v, 22 theorems) over the models of hover.rs and signature_help.rs; both halves of the "
+             "property are theorems for EVERY valid program in every layout (abstract program of the grammar, well-typed, any text "
+             "that lexes to its tokens). Hover (C14_hover_valid, C14_hover_valid_text): at every identifier occurrence and every "
+             "cursor column inside it, the signature text of the entry the occurrence is bound to under SPL scoping (kind, name, "
+             "ref marker, resolved type) followed by its doc comments, over exactly the identifier's range. Signature help "
+             "(C14_sighelp_valid, _valid_arg, _valid_full, _valid_text): at every call statement of the tree (any nesting depth) "
+             "and every cursor index between its parentheses, the callee's declared signature with one entry per parameter, active "
+             "parameter = number of commas of that call in front of the cursor, i.e. the index of the argument the cursor is in; "
+             "C14_sighelp_valid_none: no answer when no call statement's range contains the cursor. (The model answers on the whole "
+             "range of the call statement, also on the callee name and on `)` `;` - more than the property asks, recorded in "
+             "DESIGN.) For ALL documents: shape of every hover and signature-help answer, no identifier => no hover, totality. "
+             "Scope: `valid program` = layout of a well-typed abstract program rather than `document without diagnostics` "
+             "(front-end completeness not proved). Tie to the code and failing-input search: model = server at every "
              "occurrence/column and every cursor position inside call argument lists; oracle from the derivation.",
         design_ref="DESIGN.md sections 5 (C14) and 10.2",
-        technique="Coq proof (hover: full functional statement for valid programs via the parser round trip and the typing theorems; signature help: answer shape) over Gallina models of the handlers + correspondence through the binary + scoping oracle"),
+        technique="Coq proof (hover and signature help: full functional statements for valid programs via the parser round trip and the typing theorems; answer shapes and totality for all documents) over Gallina models of the handlers + correspondence through the binary + scoping oracle"),
     "C15": dict(
         category="proof",
         text="Machine-checked (Props/C15.v, 18 theorems) over the model of semantic_tokens.rs; both halves of the property are "
@@ -93,16 +97,18 @@ CHECKS = {
         design_ref="DESIGN.md sections 5 (C16) and 10.2",
         technique="Coq proof of scope theorems (shape, no leak, top level) over a Gallina transcription of the completion handler + correspondence through the binary + position-class oracle"),
     "C17": dict(
-        category="other",
-        text="Machine-checked (Props/C17.v, 5 theorems) over the model of fold.rs: for EVERY abstract program of the grammar and "
-             "every text that lexes to its token kinds (every layout) the folding ranges are exactly one per procedure in source "
-             "order, from the line of the proc keyword (after doc comments) to the line of the closing brace (C17_valid, via the "
-             "C04 round trip); well-formedness (start <= end, inside the document, ordered, non-overlapping) for all documents "
-             "satisfying fold_pre, whose token half is a theorem (C06) and whose tree half is evaluated by the judge on every "
-             "case (hence `other`). Model = server on generated programs x layouts (doc comments, several procedures per line, "
-             "CRLF) and on the malformed stream.",
+        category="proof",
+        text="Machine-checked (Props/C17.v, 7 theorems) over the model of fold.rs. For EVERY text (valid program or not) the handler "
+             "answers and its ranges are well-formed - start <= end, inside the document, in order, non-overlapping "
+             "(C17_wellformed_total; the precondition fold_pre is proved for every lexer and parser output: C17_fold_pre_total) - "
+             "with exactly one range per procedure declaration of the tree, in tree order, from the line of the first non-comment "
+             "token of the declaration to the line of the end of its last token (C17_count, C17_extents). For EVERY abstract program "
+             "of the grammar and every text that lexes to its token kinds (every layout) the ranges are exactly one per procedure "
+             "in source order, from the line of the proc keyword (after doc comments) to the line of the closing brace (C17_valid, "
+             "via the C04 round trip). Tie to the code: model = server on generated programs x layouts (doc comments, several "
+             "procedures per line, CRLF, lone CR, mixed terminators) and on the malformed stream; fold_pre still evaluated per case.",
         design_ref="DESIGN.md sections 5 (C17) and 10.2",
-        technique="Coq proof (composition with the C04 round trip) over a Gallina model of the folding handler + correspondence through the binary"),
+        technique="Coq proof (well-formedness for every analysed text; exact extents for every valid program by composition with the C04 round trip) over a Gallina model of the folding handler + correspondence through the binary"),
     "C09": dict(
         category="other",
         text="Machine-checked (Props/C09.v, 17 theorems) over the model of formatting.rs (Model/Format.v). For EVERY abstract "
@@ -157,13 +163,16 @@ CHECKS = {
              "table::analyze is unreachable and the parser's recursion is bounded by a stated fuel), AnalyzedSource::errors() "
              "never panics and every published range lies inside the document (C02_errors_total, C02_errors_inside, "
              "C02_analysis_total). The models make every panic site an explicit outcome, and the check requires the model to "
-             "predict Done/Panic exactly as the implementation does on the malformed stream and on edit histories. Not proved, "
-             "only fuzzed against the built binary: the 13 request handlers on arbitrary documents and positions (one "
-             "well-formed response per request, process alive; documents nested up to depth 400; partial handler theorems are "
-             "in C12-C17), the runtime. AnalyzedSource::update can panic after edits (known finding C02-incparse-panic, class: "
+             "predict Done/Panic exactly as the implementation does on the malformed stream and on edit histories. EVERY request "
+             "handler is total on the document of EVERY text at EVERY position (C02_handlers_total: go-to x4, references, rename, "
+             "prepareRename, hover, signature help, completion, folding, semantic tokens return a value, never a panic site; the "
+             "five well-formedness predicates the per-feature robustness theorems assume are proved for every parser output: "
+             "C02_new_doc_nav_wf / _cursor_pre / _compl_wf / _fold_pre / _doc_wf). Not proved, fuzzed against the built binary: "
+             "the process level (one well-formed response per request, process alive; documents nested up to depth 400; stack "
+             "and memory), formatting's handler totality, and documents reached by edits: AnalyzedSource::update can panic after edits (known finding C02-incparse-panic, class: "
              "predicted by the model of the pinned incremental parser).",
         design_ref="DESIGN.md sections 5 (C02) and 10.2",
-        technique="Coq proof of totality/panic-freedom of the whole analysis pipeline model (lexer, parser, table, semantic analysis, diagnostics conversion) + model/implementation correspondence on outcomes + request fuzzing of the binary"),
+        technique="Coq proof of totality/panic-freedom of the whole analysis pipeline model (lexer, parser, table, semantic analysis, diagnostics conversion) and of all request handlers on every analysed text + model/implementation correspondence on outcomes + request fuzzing of the binary"),
     "C03": dict(
         category="other",
         text="Machine-checked (Props/C03.v, 48 theorems): for ARBITRARY trees and tables the analysis algorithm agrees with a "
